@@ -221,7 +221,11 @@ func checkGlobalsIn(c *Ctx, ri *reachInfo, sum *mutSummary, rule string, ownPkg 
 						if x.Op != token.MUL {
 							continue
 						}
-						if why := badUseOfLoaded(sum, f, x, 0); why != "" {
+						why := badUseOfLoaded(sum, f, x, 0)
+						if why == "" {
+							why = linkedIntoRunData(c, x)
+						}
+						if why != "" {
 							st.bad++
 							rr := rule
 							if rule == "R17.1" && isExportedTable(g) {
@@ -499,4 +503,67 @@ func selfTestGlobals(c *Ctx, sum *mutSummary) {
 		c.Check("R17.1", "positive control: rule fires on fixture global "+want, token.NoPos, fired[want], "the shared-state rule did not fire on a fixture that mutates a package-level "+want)
 	}
 	c.Check("R17.1", "positive control: rule is silent on the read-only fixture global", token.NoPos, !fired["readonly"] && !fired["re"], "the rule fired on a read-only table / a regexp")
+}
+
+
+// linkedIntoRunData: v is a pointer loaded from a package-level variable. If the struct it points to has a field that
+// reachable code assigns through a pointer it did not just allocate (the object is mutable after construction), and v is
+// stored into a heap object, appended to a list or boxed into an interface that is, then every run links the one shared
+// object into its own data and rewrites it there.
+func linkedIntoRunData(c *Ctx, v ssa.Value) string {
+	pt, ok := v.Type().Underlying().(*types.Pointer)
+	if !ok {
+		return ""
+	}
+	stT, ok := pt.Elem().Underlying().(*types.Struct)
+	if !ok {
+		return ""
+	}
+	mutField := ""
+	for i := 0; i < stT.NumFields() && mutField == ""; i++ {
+		for _, st := range c.fieldStores(pt.Elem(), i) {
+			fa := st.Addr.(*ssa.FieldAddr)
+			if _, fresh := fa.X.(*ssa.Alloc); fresh {
+				continue
+			}
+			mutField = stT.Field(i).Name() + " (assigned in " + shortFn(st.Parent()) + ")"
+			break
+		}
+	}
+	if mutField == "" {
+		return ""
+	}
+	var escapes func(x ssa.Value, depth int) bool
+	escapes = func(x ssa.Value, depth int) bool {
+		if depth > 3 || x.Referrers() == nil {
+			return false
+		}
+		for _, r := range *x.Referrers() {
+			switch u := r.(type) {
+			case *ssa.Store:
+				if u.Val == x {
+					return true
+				}
+			case *ssa.MakeInterface:
+				if escapes(u, depth+1) {
+					return true
+				}
+			case *ssa.ChangeInterface:
+				if escapes(u, depth+1) {
+					return true
+				}
+			case *ssa.Phi:
+				if escapes(u, depth+1) {
+					return true
+				}
+			case *ssa.Return:
+				return true
+			}
+		}
+		return false
+	}
+	if escapes(v, 0) {
+		return "is linked into the data of a run (stored, appended or returned) although its field " + mutField + " is assigned after construction"
+	}
+	return ""
 }
